@@ -63,7 +63,7 @@ struct RawServer {
             off += q.consumed;
             lastActivity = lv::now();
             // target: /t/<id>/<behaviour>/<param>
-            int id = -1, b = 0, param = 0; sscanf(q.target.c_str(), "/t/%d/%d/%d", &id, &b, &param);
+            int id = -1, b = 0, param = 0; if (sscanf(q.target.c_str(), "/t/%d/%d/%d", &id, &b, &param) != 3) sscanf(q.target.c_str(), "/?id=%d&b=%d&p=%d", &id, &b, &param);   // (second form: a URL with a query and no path)
             // request well-formedness beyond the grammar: Content-Length must equal the body the client was given
             { std::string want = q.header("Server"); if (want.rfind("blen-", 0) == 0) want = want.substr(5); else want.clear(); if (!want.empty() && (size_t)atol(want.c_str()) != q.body.size()) { std::lock_guard<std::mutex> g(m); grammarErrors.push_back("request body length " + std::to_string(q.body.size()) + " differs from the body given to the builder (" + want + ")"); } }
             size_t li; { std::lock_guard<std::mutex> g(m); log.push_back({id, connId, b, false, lv::now()}); li = log.size() - 1; }
@@ -155,7 +155,9 @@ static void c15_batch(long idx, long n, uint64_t seed) {
         }
         auto build = [&](int k) {
             int b = beh[(size_t)k], param = params[(size_t)k], to = timeoutMs[(size_t)k]; const std::string& bodyIn = bodies[(size_t)k];
-            auto rb = bodyIn.empty() ? client.get(base + "/t/" + std::to_string(k) + "/" + std::to_string(b) + "/" + std::to_string(param)) : client.post(base + "/t/" + std::to_string(k) + "/" + std::to_string(b) + "/" + std::to_string(param));
+            // one URL in twelve has a query and no path ("host:port?id=..."): the request line must still carry an origin-form target
+            std::string url = (k % 12 == 7) ? base + "?id=" + std::to_string(k) + "&b=" + std::to_string(b) + "&p=" + std::to_string(param) : base + "/t/" + std::to_string(k) + "/" + std::to_string(b) + "/" + std::to_string(param);
+            auto rb = bodyIn.empty() ? client.get(url) : client.post(url);
             if (!bodyIn.empty()) rb.body(bodyIn);
             rb.header<Http::Header::Server>("blen-" + std::to_string(bodyIn.size()));
             if (to) rb.timeout(std::chrono::milliseconds(to));
@@ -356,7 +358,7 @@ struct Intent {
     std::set<std::pair<std::string, std::string>> cookies;
     std::string body;
     // response side
-    int code; std::vector<std::pair<std::string, std::string>> rheaders; std::set<std::pair<std::string, std::string>> rcookies; bool rcookieAttrs = false; long rcookieMaxAge = -1;
+    int code; std::vector<std::pair<std::string, std::string>> rheaders; std::set<std::pair<std::string, std::string>> rcookies; bool rcookieAttrs = false; long rcookieMaxAge = -1; bool rmoveStream = false;
     int rkind; std::string rbody; std::vector<size_t> rchunks;
 };
 static std::mutex g_im;
@@ -383,6 +385,9 @@ struct EchoHandler : public Http::Handler {
         }
         for (auto& c : in->rcookies) { Http::Cookie ck(c.first, c.second); if (in->rcookieAttrs) { ck.path = std::string("/p"); ck.secure = true; } if (in->rcookieMaxAge >= 0) ck.maxAge = (int)in->rcookieMaxAge; response.cookies().add(ck); }
         if (in->rkind == 0) response.send((Http::Code)in->code, in->rbody);
+        else if (in->rmoveStream) {   // the stream object changes hands (move construction, then move assignment) before anything has been flushed
+            auto st0 = response.stream((Http::Code)in->code); Http::ResponseStream st1(std::move(st0)); auto holder = std::make_unique<Http::ResponseStream>(std::move(st1)); Http::ResponseStream& st = *holder;
+            size_t pos = 0; for (size_t c : in->rchunks) { st.write(in->rbody.data() + pos, (std::streamsize)c); pos += c; if (c % 2) st << Http::flush; } st << Http::ends; }
         else { auto st = response.stream((Http::Code)in->code); size_t pos = 0; for (size_t c : in->rchunks) { st.write(in->rbody.data() + pos, (std::streamsize)c); pos += c; if (c % 2) st << Http::flush; } st << Http::ends; }
     }
 };
@@ -406,9 +411,10 @@ static void run_c02(long cases) {
         in.path = "/c" + std::to_string(idx) + "/" + mg::tok(r, 0, 16, "abcdefghijklmnopqrstuvwxyzABCXYZ0123456789-._~");
         int nq = r.range(0, 4); for (int k = 0; k < nq; k++) in.query[mg::tok(r, 1, 8, "abcdefghijklmnopqrstuvwxyz0123456789-._~")] = mg::tok(r, 0, 10, "abcdefghijklmnopqrstuvwxyzABC0123456789-._~");
         int nh = r.range(0, 5); std::set<std::string> used;
-        static const char* HN[] = {"Server", "Location", "Authorization", "Access-Control-Allow-Origin", "Content-Type", "Cache-Control", "Expect", "Date", "Connection", "Content-Encoding"};
+        static const char* HN[] = {"Server", "Location", "Authorization", "Access-Control-Allow-Origin", "Content-Type", "Cache-Control", "Expect", "Date", "Connection", "Content-Encoding", "Host"};
         for (int k = 0; k < nh; k++) { std::string hn = r.pick(HN); if (!used.insert(hn).second) continue;
-            std::string v = hn == "Content-Type" ? (r.chance(1, 2) ? "application/json" : "text/plain; charset=utf-8") : hn == "Cache-Control" ? "max-age=" + std::to_string(r.range(0, 9999)) : hn == "Expect" ? "100-continue" : hn == "Date" ? "Sun, 06 Nov 1994 08:49:37.000000000 UTC" : hn == "Connection" ? "Keep-Alive" : hn == "Content-Encoding" ? "gzip" : hn == "Authorization" ? "Bearer " + mg::tok(r, 1, 20, mg::TOKCH) : mg::tok(r, 1, 20, mg::TOKCH);
+            // (a Host set by the caller - a virtual host other than the address connected to - is a header like any other)
+            std::string v = hn == "Host" ? mg::tok(r, 1, 10, "abcdefghijklmnopqrstuvwxyz0123456789") + ".example.org:" + std::to_string(r.range(1, 65535)) : hn == "Content-Type" ? (r.chance(1, 2) ? "application/json" : "text/plain; charset=utf-8") : hn == "Cache-Control" ? "max-age=" + std::to_string(r.range(0, 9999)) : hn == "Expect" ? "100-continue" : hn == "Date" ? "Sun, 06 Nov 1994 08:49:37.000000000 UTC" : hn == "Connection" ? "Keep-Alive" : hn == "Content-Encoding" ? "gzip" : hn == "Authorization" ? "Bearer " + mg::tok(r, 1, 20, mg::TOKCH) : mg::tok(r, 1, 20, mg::TOKCH);
             in.headers.push_back({hn, v}); }
         int nc = r.range(0, 6); for (int k = 0; k < nc; k++) in.cookies.insert({mg::tok(r, 1, 6, mg::CKNAME), mg::tok(r, 0, 10, mg::CKVAL)});
         { int w = r.range(0, 5); int bl = w == 0 ? 0 : w == 1 ? 1 : w == 2 ? r.range(2, 100) : w == 3 ? r.range(100, 4000) : r.range(4000, 16000); in.body = mg::octets(r, bl, r.range(0, 3)); if (w == 5 && !in.body.empty()) in.body.back() = '\r'; }
@@ -421,7 +427,7 @@ static void run_c02(long cases) {
         // now and then one header value (or a response cookie) is large, so that the head of the message crosses the 4096-byte reads of both sides
         if (r.chance(1, 6)) { std::string big = mg::tok(r, 3000, 7000, "abcdefghijklmnopqrstuvwxyzABCDEFGHIJKLMNOPQRSTUVWXYZ0123456789-._~"); bool placed = false; for (auto& h : in.headers) if (!placed && (h.first == "Authorization" || h.first == "Location" || h.first == "Server")) { h.second = h.first == "Authorization" ? "Bearer " + big : big; placed = true; } if (!placed && !used.count("Authorization")) in.headers.insert(in.headers.begin() + (long)r.below(in.headers.size() + 1), {"Authorization", "Bearer " + big}); }
         if (r.chance(1, 6)) { std::string big = mg::tok(r, 3000, 7000, "abcdefghijklmnopqrstuvwxyzABCDEFGHIJKLMNOPQRSTUVWXYZ0123456789"); if (r.chance(1, 2)) in.rcookies.insert({"big", big}); else { bool placed = false; for (auto& h : in.rheaders) if (!placed && h.first != "Content-Type") { h.second = big; placed = true; } if (!placed) in.rheaders.insert(in.rheaders.begin(), {"Server", big}); } }
-        in.rkind = r.chance(1, 3) ? 1 : 0;
+        in.rkind = r.chance(1, 3) ? 1 : 0; in.rmoveStream = r.chance(1, 3);
         if (in.rkind == 0) { int bl = r.chance(1, 5) ? 0 : r.range(1, 20000); in.rbody = mg::octets(r, bl, r.range(0, 3)); }
         else { int nchunks = r.range(0, 8); static const size_t SZ[] = {1, 15, 16, 255, 256, 4095, 4096, 65535, 65536}; for (int k = 0; k < nchunks; k++) { size_t c = r.chance(1, 2) ? r.pick(SZ) : (size_t)r.range(1, 3000); in.rchunks.push_back(c); in.rbody += mg::octets(r, (int)c, r.range(0, 3)); } }
         { std::lock_guard<std::mutex> g(g_im); g_intents[in.path] = &in; }
@@ -443,6 +449,7 @@ static void run_c02(long cases) {
             else if (h.first == "Date") rb.header<Date>(Http::FullDate(std::chrono::system_clock::time_point(std::chrono::seconds(784111777))));
             else if (h.first == "Connection") rb.header<Connection>(Http::ConnectionControl::KeepAlive);
             else if (h.first == "Content-Encoding") rb.header<ContentEncoding>(Encoding::Gzip);
+            else if (h.first == "Host") rb.header<Host>(h.second);
         }
         for (auto& c : in.cookies) rb.cookie(Http::Cookie(c.first, c.second));
         if (!in.body.empty()) rb.body(in.body);
